@@ -42,8 +42,8 @@ func (r *Rng) Intn(n int) int {
 	}
 	return int(r.Next() % uint64(n))
 }
-func (r *Rng) Bool() bool          { return r.Next()&1 == 1 }
-func (r *Rng) Pct(p int) bool      { return r.Intn(100) < p }
+func (r *Rng) Bool() bool             { return r.Next()&1 == 1 }
+func (r *Rng) Pct(p int) bool         { return r.Intn(100) < p }
 func (r *Rng) Pick(l []string) string { return l[r.Intn(len(l))] }
 func (r *Rng) Subset(l []string, pct int) []string {
 	out := []string{}
